@@ -59,6 +59,7 @@ type Task struct {
 	state TaskState
 	goid  uint64
 
+	spin      int // scheduling points since the task last blocked
 	blockWhat string
 	blockObj  any
 	pcs       [10]uintptr
@@ -168,6 +169,7 @@ type TaskInfo struct {
 	What    string
 	Where   string
 	Created string
+	Spin    int // scheduling points passed since the task last blocked
 }
 
 type PanicInfo struct {
@@ -397,11 +399,17 @@ func Yield() {
 		s.checkID(t)
 	}
 	s.yields++
+	t.spin++
 	if s.yields > 4*s.cfg.MaxSteps || s.ledgerBytes > 1<<28 {
-		// a task is spinning through scheduling points without ever blocking
-		// (livelock in the code under test): end the run as inconclusive
+		// some task is spinning through scheduling points without ever blocking
+		// (livelock in the code under test), or the recorded ledgers outgrew their
+		// budget: end the run as inconclusive. Who spins is decided by the
+		// per-task count of scheduling points since the task last blocked.
 		if s.aborted == "" {
 			s.aborted = "livelock"
+			if s.ledgerBytes > 1<<28 {
+				s.aborted = "ledger-budget"
+			}
 		}
 		t.blockWhat = "aborted"
 		s.park(t, StQuiesce)
@@ -429,6 +437,7 @@ func Preempt() {
 		return
 	}
 	s.yields++
+	t.spin++
 	if s.yields > 4*s.cfg.MaxSteps {
 		return // the livelock guard lives in Yield
 	}
@@ -457,6 +466,7 @@ func Block(what string, obj any) {
 	}
 	t.blockWhat = what
 	t.blockObj = obj
+	t.spin = 0
 	s.park(t, StBlocked)
 	t.blockObj = nil
 }
@@ -522,6 +532,7 @@ func Post(t *Task) {
 		return
 	}
 	t.state = StRunnable
+	t.spin = 0 // it blocked in the native operation and was woken by another task
 	s.unlock()
 	raceDisable()
 	<-t.wake
@@ -716,7 +727,7 @@ func (s *Sim) info(t *Task) TaskInfo {
 		}
 	}
 	return TaskInfo{ID: t.ID, Name: t.Name, Kind: t.Kind, State: t.state.String(), What: what,
-		Where: s.where(t), Created: frames(t.createPCs[:t.ncreate])}
+		Where: s.where(t), Created: frames(t.createPCs[:t.ncreate]), Spin: t.spin}
 }
 
 //go:norace
